@@ -2531,11 +2531,11 @@ def run(ctx):
     deps = [make_dep(rng, i) for i in range(ctx.n(3, 12))]
     dep_cases = [{'ns': d['ns'], 'version': d['version'], 'gir': d['gir'], 'deps': [], 'dep_ids': [], 'shlib_option': None,
                   'cover': d['cover'], 'origin': 'generated'} for d in deps]
-    n_cases = ctx.n(150, 1800)
+    n_cases = ctx.n(150, 1200)
     cases = [make_case(rng, i, deps) for i in range(n_cases)]
     san_runs, san_cases = None, []
     if san_future is not None:
-        san_cases = (corpus + dep_cases + cases)[:300]
+        san_cases = (corpus + dep_cases + cases)[:200]
         san_runs = start_sanitizer_runs(pipe, san_future, san_cases)
     lims = limit_cases(rng, ctx.tier)
     lim_futures = judge.prepare_async(lims)          # compiled while the ordinary documents are judged
